@@ -1,5 +1,5 @@
-\* Small sub-space for the anti-vacuity witnesses: vectors do not depend on the constant sets, so a
-\* witness found here is also a vector of the quick and full configurations.
+\* Counter-example variant: the listener as it was before 8d11383 (expected name = text before the first ':').
+\* TLC must report a violation of CodeWithinProp here (checks/c09.py requires it); never used as a passing configuration.
 SPECIFICATION Spec
 CONSTANTS
   Issuers = {"trusted", "otherca"}
@@ -10,7 +10,7 @@ CONSTANTS
   Roles = {"server", "client"}
   Modes = {"receptor", "dns"}
   StreamSrcs <- StreamSrcsQuick
-  KF_ColonSplit = FALSE
+  KF_ColonSplit = TRUE
   DumpFile = ""
 INVARIANTS
-  AcceptImpliesAll
+  CodeWithinProp
